@@ -1405,11 +1405,12 @@ def _generators(vk, fam):
             for mesh in (fem.Rectangle(a=(-3, -1), b=(3, 1), n=(n, n)), fem.Cube(a=(-3, -2, -1), b=(3, 2, 1), n=(n, n, 2))):
                 for axis in range(mesh.dim):
                     for normalize in (False, True):
-                        r = mesh.add_runouts(axis=axis, normalize=normalize)
-                        ori, used, V = _native_inv(r)
-                        inp = f"{mesh.cell_type} n={n} add_runouts(axis={axis}, normalize={normalize})"
-                        B.check(ori and used, inp, "orientation / unused points")
-                        B.check(np.allclose(r.points[:, axis], mesh.points[:, axis]), inp, "coordinate along the axis changed")
+                        for extra in ({}, dict(exponent=2), dict(exponent=8, values=[0.2, 0.05])):
+                            r = mesh.add_runouts(axis=axis, normalize=normalize, **extra)
+                            ori, used, V = _native_inv(r)
+                            inp = f"{mesh.cell_type} n={n} add_runouts(axis={axis}, normalize={normalize}, {extra})"
+                            B.check(ori and used, inp, "orientation / unused points")
+                            B.check(np.allclose(r.points[:, axis], mesh.points[:, axis]), inp, "coordinate along the axis changed")
                     same = mesh.add_runouts(values=[0.0, 0.0], axis=axis)
                     B.check(np.allclose(same.points, mesh.points), f"{mesh.cell_type} n={n} add_runouts(values=0)", "not the identity")
             bot = fem.mesh.Line(a=0.0, b=2.0, n=3)
